@@ -213,6 +213,17 @@ def do_walk(ctx):
             "empty_ok": r0 == ("end",), "empty_why": r0}
 
 
+
+@rule("C17.W", "type-level: compile-fail witnesses with compiling twins (K6; thorough tier)")
+def rw(ctx):
+    from analysis import witness
+    if ctx.config != "ws":
+        return
+    witness.check(ctx, {'c17_book_cursor_unforgeable': 'a book cursor can be created at an arbitrary index of the packed array'})
+
+
+rw.thorough_only = True
+
 # ------------------------------------------------------------------ controls
 def _word(i, f):
     def m(P):
